@@ -29,6 +29,18 @@ CHECKS = {
             'constructor\'s accept / reject decision and exception type are compared with a table written from the '
             'class docstring (values the docstring is silent on are executed but not judged); pairs of fields, '
             'documented defaults and field-wise equality are checked as well.', '§5 C17'),
+    'C20': ('independent calendar model (datetime.date) over generated day / range lists, permutation and duplication pairs',
+            'Generated lists of single days and closed ranges (overlapping, nested, abutting, duplicated, crossing month / '
+            'year / leap-day boundaries, years 1700-2200) are expanded by the real find_days_to_exclude + '
+            'expand_time_windows and compared day-for-day with a datetime.date model (no extra, missing, duplicate or '
+            'non-midnight stamp; same set for a permuted and a duplicated list); malformed entries and reversed ranges '
+            'must raise ValueError.', '§5 C20'),
+    'C11': ('three-way differential: fast count vs real generator listing vs independent itertools enumeration (exact rational ratio)',
+            'For every multiset of the seven row classes over <=3 (quick) / <=4 (thorough) geos x 45 size / geo-ratio '
+            'settings, and random class vectors up to 6 / 8 geos, count_max_designs() on the real object is compared with '
+            'an itertools.product enumeration of control/treatment/neither assignments and (every third setting) with the '
+            'distinct pairs listed by the real generators; exhaustive searches are checked to push no more designs than '
+            'the count.', '§5 C11'),
 }
 
 NOT_YET = {}
